@@ -22,12 +22,14 @@ BOUNDS = ("single mobilizer between Ground and one body (forward and reversed in
           "coordinates, speeds and option values (pitch, radii, length) of the mobilizer free simultaneously (quaternion Ellipsoid: radii free with one quaternion "
           "component; SphericalCoords offsets and the body frames pinned at 2 quick / 6 thorough exact base points, 4 quick / 10 thorough sign/axis variants); "
           "fit round trips with all speeds free and 0 or 1 coordinate free at a time (3 coordinates quick, all thorough), on the executed branch of the fit code "
-          "(atan2/asin/acos ranges and quaternion-extraction branch as path conditions); BendStretch translation-only fits for stretch > 0")
+          "(atan2/asin/acos ranges and quaternion-extraction branch as path conditions); BendStretch fits for stretch > 0, plus one instance with negative "
+          "stretch for the whole-transform fit (known finding)")
 NOT_COVERED = ("Ellipsoid: the header does not say which surface point is used, so only 'Mo on the surface' is proved (the code uses p = radii*Mz, for which Mz is "
                "not the surface normal unless the ellipsoid is a sphere, contrary to the comment in RigidBodyNodeSpec_Ellipsoid.h); Ellipsoid whole-transform, "
                "whole-velocity, translation and linear-velocity fits (directional approximations by their own comments; nested radicals make the query intractable; "
                "that setQToFitTransform does not round-trip there is shown numerically by seeded/known/C05/fit_transform_roundtrip.cpp); CantileverFreeBeam "
-               "translation-only fit (directional by its comment) and its velocity fits (FactorQTZ least squares = LAPACK, out of reach); other branches of the fit "
+               "translation-only fit (directional by its comment) and its velocity fits (FactorQTZ least squares = LAPACK, out of reach); setUToFitLinearVelocity of reversed "
+               "mobilizers (documented in RigidBodyNode.h to assume zero angular velocity) and, for forward ones, only starting from the true speeds; other branches of the fit "
                "code than the executed ones; more than one coordinate free in a fit round trip; coordinate singularities (division side conditions); "
                "Custom/FunctionBased mobilizers (C06); Weld (no coordinates); float; rounding")
 
@@ -44,6 +46,8 @@ def instances(tier, seed):
         variants = ["-"]
         if m == "SphericalCoords":
             variants = ["-", "azx", "r", "zrx"] if tier == "quick" else ["-", "a", "z", "r", "x", "az", "azx", "zrx", "azr", "azrx"]
+        if m == "BendStretch":
+            variants = ["-", "neg"]                  # "neg": negative stretch coordinate (fits only; known finding)
         for v in variants:
             for e in ([False, True] if m in QUAT else [False]):
                 styles = [2] if tier == "quick" else [0, 1, 2]
@@ -54,8 +58,9 @@ def instances(tier, seed):
                     d = dict(name=nm, args=[m, "1" if e else "0", str(fs), v, "0"])
                     if m in ("FreeLine", "Ellipsoid", "Free"):
                         d["max_terms"] = 150000
-                    out.append(d)
-                    if fs == 2 or tier == "thorough":
+                    if v != "neg":
+                        out.append(d)
+                    if fs == 2 or (tier == "thorough" and v != "neg"):
                         out.append(dict(name=nm + ":fits", args=[m, "1" if e else "0", str(fs), v, "1"]))
     return out
 
@@ -338,7 +343,8 @@ def obligations(enc, inst, tr):
         # ---------------------------------------------------------------- fit round trips
         # BendStretch = polar coordinates (theta, r): its fits return r >= 0, so poses with a negative stretch coordinate come
         # back as (theta+pi, |r|) -- the translation is reproduced, the rotation of the full-transform fit is not. Proved for r > 0.
-        hyps = [Constraint(2, inp("q1"), "stretch coordinate > 0")] if mob == "BendStretch" and enc.is_free("q1") else []
+        neg = inst["args"][3] == "neg"
+        hyps = [Constraint(4 if neg else 2, inp("q1"), "stretch coordinate < 0" if neg else "stretch coordinate > 0")] if mob == "BendStretch" and enc.is_free("q1") else []
         lapack = mob == "CantileverFreeBeam"      # linear-velocity fit = FactorQTZ least squares: out of reach
         # translation-only / linear-velocity-only fits of the rotation-only mobilizers whose origin moves with the rotation are
         # documented (source comments) to match the *direction* of the request only
@@ -347,15 +353,20 @@ def obligations(enc, inst, tr):
             nm = "forward" if pre == "f" else "reversed"
             if mob != "Ellipsoid":
                 X2R, X2p = M33(pre + "_fitX_R"), V3(pre + "_fitX_p")
-                V2w, V2v = V3(pre + "_fitV_w"), V3(pre + "_fitV_v")
                 obs.append(eqs(enc, "fit: transform: " + nm + " setQToFitTransform(X_FM(q)) reproduces X_FM(q)",
-                               [(X2R[i][j], Rm[i][j]) for i in range(3) for j in range(3)] + list(zip(X2p, p))))
+                               [(X2R[i][j], Rm[i][j]) for i in range(3) for j in range(3)] + list(zip(X2p, p)), hyps=hyps))
+                if neg:
+                    continue        # the negative-stretch instance exists for this obligation only
                 if not lapack:
-                    obs.append(eqs(enc, "fit: velocity: " + nm + " setUToFitVelocity(V_FM(q,u)) reproduces V_FM(q,u)", list(zip(V2w, w)) + list(zip(V2v, v))))
+                    V2w, V2v = V3(pre + "_fitV_w"), V3(pre + "_fitV_v")
+                    obs.append(eqs(enc, "fit: velocity: " + nm + " setUToFitVelocity(V_FM(q,u)) reproduces V_FM(q,u)", list(zip(V2w, w)) + list(zip(V2v, v)), hyps=hyps))
             fitR = M33(pre + "_fitR")
             obs.append(eqs(enc, "fitR: " + nm + " setQToFitRotation(R_FM(q)) reproduces R_FM(q)", [(fitR[i][j], Rm[i][j]) for i in range(3) for j in range(3)]))
             obs.append(eqs(enc, "fit: angular velocity: " + nm + " setUToFitAngularVelocity(w_FM) reproduces w_FM", list(zip(V3(pre + "_fitW"), w))))
             if not directional:
                 obs.append(eqs(enc, "fit: translation: " + nm + " setQToFitTranslation(p_FM(q)) reproduces p_FM(q)", list(zip(V3(pre + "_fitP"), p)), hyps=hyps))
-                obs.append(eqs(enc, "fit: linear velocity: " + nm + " setUToFitLinearVelocity(v_FM) reproduces v_FM", list(zip(V3(pre + "_fitL"), v)), hyps=hyps))
+                # linear-velocity-only fit, starting from the true speeds; not required of reversed mobilizers (RigidBodyNode.h:
+                # "we have to assume angular velocity is zero here")
+                if pre == "f" and not lapack:
+                    obs.append(eqs(enc, "fit: linear velocity: " + nm + " setUToFitLinearVelocity(v_FM) leaves a state that already has v_FM at v_FM", list(zip(V3(pre + "_fitL"), v)), hyps=hyps))
     return obs
